@@ -3,7 +3,7 @@ import ast
 import copy
 
 from sa.program import src, own_nodes, call_name, parent, kwarg, AnchorMissing
-from sa import guards
+from sa import guards, resolve
 
 EXPLANATION = (
     "Static rules over pyiga/assemble.py: (R10.1) order-provenance tagging in RestrictedLinearSystem: the selection matrix of the "
@@ -450,7 +450,53 @@ def r10_5(ctx):
                    'satisfy the free equations' % matchain.show(arg), definite=True)
 
 
+def r10_6(ctx):
+    """A scalar prescribed value is expanded to one value per eliminated dof WITHOUT changing its type: np.broadcast_to /
+    np.full(n, v).  An expansion that takes its dtype from the integer index array (np.full_like(indices, v), zeros_like +
+    fill) truncates 0.5 to 0."""
+    init = ctx.prog.func(A + '.RestrictedLinearSystem.__init__')
+    n = 0
+    for s_ in own_nodes(init.node):
+        if isinstance(s_, ast.Assign) and src(s_.targets[0]) == 'values' and isinstance(s_.value, ast.Call):
+            nm = call_name(s_.value) or ''
+            if not any((t_.replace(' ', '') == 'np.isscalar(values)') and p_ for (t_, p_, _n) in guards.path_conditions(s_)):
+                continue
+            n += 1
+            like_idx = nm.endswith('_like') and s_.value.args and 'ind' in src(s_.value.args[0])
+            dt = kwarg(s_.value, 'dtype', 99)
+            from_idx = dt is not None and 'ind' in src(dt)
+            ok = nm in ('np.broadcast_to', 'np.full', 'np.repeat', 'np.tile') and not from_idx
+            ctx.decide('R10.6', init.qual, src(s_), True if ok else (False if (like_idx or from_idx) else None), s_,
+                       'the scalar keeps its type' if ok else
+                       'the scalar value is expanded into an array with the dtype of the INDEX array: a non-integer value (0.5, -1.25) is '
+                       'truncated, so lifting and complete() use another value than the one prescribed', definite=True)
+    if n == 0:
+        ctx.undecided('R10.6', init.qual, 'expansion of a scalar value', init.node, 'not recognised')
+
+
+def r10_7(ctx):
+    """compute_initial_condition_01 evaluates the two boundary basis functions AT THE END OF THE KNOT VECTOR'S SUPPORT on the
+    chosen side; a literal parameter value (0.0 / 1.0) is that end only for a time axis [0, 1]."""
+    f = ctx.prog.func(A + '.compute_initial_condition_01')
+    n = 0
+    for c in ast.walk(f.node):
+        if isinstance(c, ast.Call) and (call_name(c) or '').split('.')[-1] == 'active_deriv' and len(c.args) >= 2:
+            n += 1
+            a = resolve.expand(c.args[1], c)
+            lit = isinstance(a, ast.Constant) and isinstance(a.value, (int, float))
+            from_support = any(isinstance(x, ast.Call) and src(x.func).endswith('.support') for x in ast.walk(a)) or \
+                any(isinstance(x, ast.Attribute) and x.attr == 'kv' for x in ast.walk(a))
+            ctx.decide('R10.7', f.qual, src(c)[:80], True if from_support else (False if lit else None), c,
+                       'evaluated at the end of the support' if from_support else
+                       'the boundary basis functions are evaluated at the literal parameter %s: for a time axis other than [0, 1] this is not the '
+                       'end of the domain -- the initial data are not reproduced ([0, 1.5]: value error 1; [1, 2]: NaN; [0, 2]: singular matrix)'
+                       % src(a), definite=True)
+    ctx.floor('R10.7', 'boundary evaluations in compute_initial_condition_01', n, 2)
+
+
 def run(ctx):
+    r10_7(ctx)
+    r10_6(ctx)
     r10_1(ctx)
     r10_2(ctx)
     r10_3(ctx)
